@@ -58,11 +58,20 @@ def make_case(rng, idx, tier):
     prefix = 'vwc%d' % idx
     nl = rng.randint(1, 3)
     layers = gen.random_layer_graph(rng, nmax=nl, nmin=nl, p_hook=0.85)
-    if rng.random() < 0.15:
+    mi_family = rng.random() < 0.2
+    if mi_family:
         # a layer on two roots and siblings on one of them: a failing root
         # must not take the healthy sibling layers with it
         layers = gen.mi_sibling_family(rng, p_hook=0.85)
     keys = [ls['name'] for ls in layers]
+    # base layers often own no tests of their own: they are only ever set up
+    # on behalf of a derived layer
+    used_as_base = {b for ls in layers for b in ls['bases']}
+    if mi_family or rng.random() < 0.5:
+        kept = [k for k in keys
+                if k not in used_as_base or
+                rng.random() < (0.3 if mi_family else 0.5)]
+        keys = kept or keys
     if rng.random() < 0.3:
         keys = [None] + keys
     tbl = {}
@@ -107,7 +116,12 @@ def make_case(rng, idx, tier):
                     'setup_error', 'setup_fail', 'skip_setup') else 'setUp',
                  'do': 'uncollectable', 'tag': 'c04-%d' % idx})
     plan = {}
-    if rng.random() < 0.3:
+    if mi_family and rng.random() < 0.8:
+        # one of the two roots cannot be set up: everything on the other
+        # root only must still run
+        ln = rng.choice([ls['name'] for ls in layers if not ls['bases']])
+        plan = {'layers': {ln: {'setUp': 'raise:' + rng.choice(EXCS)}}}
+    elif rng.random() < 0.3:
         ln = rng.choice([ls['name'] for ls in layers])
         hook = rng.choice(['setUp', 'tearDown'])
         plan = {'layers': {ln: {hook: 'raise:' + rng.choice(EXCS)}}}
